@@ -12,6 +12,7 @@ import ast
 
 from ..core import rule, AnalysisError
 from ..engine.facts import dotted, const, src, walk_func
+from ..engine import pattern as P
 from .common import calls
 from . import c18  # precedence (coding comment > input_encoding > utf-8) is registered for C20 there
 
@@ -223,4 +224,8 @@ def code_unmodified(ctx):
     ctx.check(any(isinstance(s, ast.Assign) and dotted(s.targets[0]) == "self.code" and src(s.value) == "code" for s in fd.body), "FunctionDecl.code", db.where(fd), "FunctionDecl.code is not the declaration as given", "self.code = code")
     me = db.func("lexer.Lexer.match_expression")
     ap = [c for c in walk_func(me) if isinstance(c, ast.Call) and dotted(c.func) == "self.append_node"]
-    ctx.check(bool(ap) and src(ap[0].args[1]) == "text", "lexer.expression-text", db.where(me), "the lexer does not hand the expression text as scanned to the Expression node", "Expression(text as scanned)")
+    ok = False
+    if ap and isinstance(ap[0].args[1], ast.Name):
+        v_ = ap[0].args[1].id
+        ok = P.has(me, "(%s, $e) = self.parse_until_text(...)" % v_) and all(isinstance(d.value, ast.Call) and dotted(d.value.func) in ("self.parse_until_text", v_ + ".replace") for d in walk_func(me) if isinstance(d, ast.Assign) and any(isinstance(t_, ast.Name) and t_.id == v_ for t_ in ast.walk(d.targets[0])))
+    ctx.check(ok, "lexer.expression-text", db.where(me), "the lexer does not hand the expression text as scanned to the Expression node", "Expression(text as scanned)")
